@@ -71,6 +71,12 @@ inductive Node where
 
 abbrev Forest := List Node
 
+/-- Identity of a node: the payload id of its own record (`layer._record`). The id-indexed store
+    of the edit model (C09/C10) uses these ids; `rootId` is reserved for the document. -/
+def Node.id : Node → Nat
+  | .layer p => p
+  | .group c _ _ _ => c
+
 /-! ### `_build_record_tree` -/
 
 mutual
@@ -137,6 +143,32 @@ def parse (rs : List Rec) : Except Err Forest :=
   | .ok s => match s.stack with
     | [] => .ok s.root
     | _ :: _ => .error .attributeError
+
+/-! ### Bridge to an id-indexed store (for the edit model; no theorem of C08 depends on it)
+
+`children`/`parent` lookups of the object graph that `_init` leaves behind, keyed by `Node.id`;
+`none` as container id stands for the `PSDImage` itself. -/
+
+mutual
+/-- `(container, children ids)` for the container `owner` holding the list, then for every group inside, pre-order. -/
+def childTable (owner : Option Nat) : List Node → List (Option Nat × List Nat)
+  | f => (owner, idsOf f) :: groupTables f
+def idsOf : List Node → List Nat
+  | [] => []
+  | n :: ns => n.id :: idsOf ns
+def groupTables : List Node → List (Option Nat × List Nat)
+  | [] => []
+  | .layer _ :: ns => groupTables ns
+  | .group c _ _ ch :: ns => ((some c, idsOf ch) :: groupTables ch) ++ groupTables ns
+end
+
+/-- `children : Id → List Id` of the opened document (`none` = the document). -/
+def childrenOf (f : Forest) (g : Option Nat) : Option (List Nat) :=
+  ((childTable none f).find? (fun e => e.1 == g)).map (·.2)
+
+/-- `parent : Id → Option container` — `some none` = listed by the document itself. -/
+def parentOf (f : Forest) (x : Nat) : Option (Option Nat) :=
+  ((childTable none f).find? (fun e => e.2.contains x)).map (·.1)
 
 /-! ### Nesting depth (used to describe the outcome on unbalanced input) -/
 
